@@ -812,6 +812,35 @@ pub fn c14(ctx: &mut Ctx, tier: &str, seed: u64) {
             }
         }
     }
+    // the same comparison where the ENVIRONMENT matters (`absolutize` reads the current directory): inside
+    // directories whose names re-encode to a Windows prefix, contain a space or a non-ASCII letter
+    #[cfg(feature = "std")]
+    {
+        use std::os::unix::ffi::OsStrExt;
+        let old = std::env::current_dir().expect("cwd");
+        let base = std::env::temp_dir().join(format!("tpverif-c14-{}", std::process::id()));
+        for name in [&b"D:"[..], br"\\server\share", b"x y", "d\u{e9}".as_bytes()] {
+            let dir = base.join(std::ffi::OsStr::from_bytes(name));
+            if std::fs::create_dir_all(&dir).is_err() || std::env::set_current_dir(&dir).is_err() {
+                continue;
+            }
+            for st in ["\\foo\\bar", "foo", "/x/../y", "C:foo", "D:foo", ".", "..", "\u{e9}/a"] {
+                for win in [false, true] {
+                    ctx.evals += 1;
+                    let tb = no_y(t_bytes(win, st.as_bytes(), b"a"));
+                    let tu = no_y(t_utf8(win, st, "a"));
+                    let tt = no_x(&t_typed(win, st.as_bytes(), b"a"));
+                    let t8 = no_x(&t_typed8(win, st, "a"));
+                    if tb != tu || no_x(&tb) != tt || tt != t8 {
+                        let d = if tb != tu { first_diff(&tb, &tu) } else if no_x(&tb) != tt { first_diff(&no_x(&tb), &tt) } else { first_diff(&tt, &t8) };
+                        ctx.fail("utf8-twin-transcript", None, format!("x.in-cwd-named {} {} {}", hex(name), gen::e(win), hex(st.as_bytes())), d);
+                    }
+                }
+            }
+        }
+        std::env::set_current_dir(&old).expect("restore cwd");
+        let _ = std::fs::remove_dir_all(&base);
+    }
     // conversions between the families succeed exactly for valid UTF-8 and keep the bytes
     for s in strings_b(b"a/\xc3\xa9\xff\xe2\x82\xac\xf0", if t { 5 } else { 4 }) {
         let valid = std::str::from_utf8(&s).is_ok();
@@ -1522,6 +1551,19 @@ pub fn c19(ctx: &mut Ctx, tier: &str, _seed: u64) {
         rd.extend(dict_win_paths().into_iter().step_by(7));
         for win in [false, true] {
             crate::orc_e::rare_surface_clause(ctx, "rarely-used-surface-agrees", win, &rd);
+        }
+    }
+    // a borrowed path compared with a borrowed sub-slice of itself orders like their owned copies
+    for win in [false, true] {
+        let mut ad: Vec<Vec<u8>> = dom.iter().take(600).cloned().collect();
+        ad.extend(if win { dom_win_small("quick", 1) } else { dom_unix_small("quick", 1) }.into_iter().take(300));
+        for a in &ad {
+            for (lo, hi) in alias_ranges(win, a) {
+                ctx.evals += 1;
+                if let Some(d) = cmp_alias_mismatch(win, a, lo, hi) {
+                    ctx.fail("wrapping-keeps-comparisons", None, format!("rel {} {} {}", gen::e(win), hex(a), hex(&a[lo..hi])), d);
+                }
+            }
         }
     }
     // the process-level helpers hand out std's answers, byte for byte, in the native encoding
